@@ -1047,7 +1047,13 @@ async def e2e(ctx, tmp, replay=None):
                 size = max(0, min(60000, base + rng.choice([-1, 0, 0, 1, 7])))
                 op = ['get', 'put', 'copy', 'get', 'copy', 'put'][k % 6]
                 fault = rng.choice([None, None, None, 'read_fail', 'write_fail', 'early_eof'])
-                specs.append({'op': op, 'size': size, 'bs': bs, 'mx': mx, 'sparse': rng.random() < 0.5,
+                # the first rounds carry one fault of each kind on an operation it applies to, so that the
+                # fault oracle is exercised whatever the seed (the vacuity guard below must not depend on luck)
+                if k < 12 and k % 6 in (0, 1, 3):
+                    fault = {0: 'read_fail', 1: 'write_fail', 3: 'early_eof'}[k % 6]
+                    size = max(size, 2 * bs + 3)
+                specs.append({'op': op, 'size': size, 'bs': bs, 'mx': mx,
+                              'sparse': rng.random() < 0.5 and not (k < 12 and k % 6 == 3),
                               'short': rng.random() < 0.75, 'async': rng.random() < 0.3, 'fault': fault,
                               'at': rng.randint(0, 1 << 30), 'no_remote_copy': k % 6 == 2})
             # defaults (block_size / max_requests chosen by the library)
